@@ -150,6 +150,15 @@ def Attrs.get (a : Attrs) (name : String) : AttrVal :=
 def defAttrNames : List String := Gen.defAttrNames
 def scopeAttrNames : List String := Gen.scopeAttrNames
 
+/-- result of `definition.resolve_variables()` computed ahead of a fetch (the code resolves lazily,
+    when the definition is fetched; the model carries the outcome with the definition and uses it
+    at that moment): the resolved words and the ids of the definitions consulted (marked `tmp=True`),
+    or the RuntimeError the resolution raises -/
+inductive VarRes
+  | ok (ws : List Word) (refs : List Nat)
+  | err (site : String) (line : Option Nat)
+  deriving DecidableEq, Repr, Inhabited
+
 /-- fields common to definitions and scopes -/
 structure Meta where
   name : Str
@@ -159,6 +168,7 @@ structure Meta where
   mergeNames : Bool := false
   tmpl : Int := 0                       -- is_template
   attrs : Attrs := []
+  varRes : Option VarRes := Option.none -- see `VarRes`; `none` = words contain no live `$`
   deriving DecidableEq, Repr, Inhabited
 
 inductive Obj
